@@ -14,11 +14,20 @@ RULE = ("each case = 1..3 live objects and a history of 4..25 read-only calls wi
         "without the permutant, kappa_X, linear profiles, composition with default and user groups, reduced alphabets, complexity, SCD, "
         "phosphosequence, HTML string, len/get_sequence), each call paired with the same call on a brand-new object; oracle 1 (no model): "
         "the live object's answer equals the fresh object's answer and get_sequence / get_phosphosites never change; oracle 2: equality "
-        "with the model's step function (which carries the delta-max cache and the shared default list); plus every ordered pair of the "
+        "with the model's step function (which carries the delta-max cache and the shared default list); histories on an object whose phosphosites were registered in non-ascending order (each call issued at least twice: same answer); plus every ordered pair of the "
         "query shapes on two fixed sequences (exhaustive); non-trivial = distinct history containing at least one cache-touching query "
         "(kappa, delta-max, Omega-free) before another query")
-EXHAUSTIVE = {"quick": "every ordered pair (q1, q2) of the 30 query shapes on 2 fixed sequences, same object",
-              "thorough": "every ordered pair of the 30 query shapes on 4 fixed sequences, same object and across two objects"}
+EXHAUSTIVE = {"quick": "every ordered pair (q1, q2) of the 37 query shapes on 2 fixed sequences, same object",
+              "thorough": "every ordered pair of the 37 query shapes on 4 fixed sequences, same object and across two objects"}
+
+
+def _utok(d):
+    return ",".join("%s=%s" % (hex6(k), hex6(v)) for k, v in sorted(d.items()))
+
+
+UA_HP = _utok({a: ("E" if a in "EDNQKRH" else "L") for a in gen.AAS})
+UA_KR = _utok(dict({a: a for a in gen.AAS}, R="K"))
+UA_BAD = _utok({a: a for a in "ACDEF"})
 
 
 def shapes(rng, N):
@@ -31,7 +40,11 @@ def shapes(rng, N):
             "linNCPR %d" % w, "linFCR %d" % w, "linSigma %d" % w, "linHydro %d" % w, "linComp %d -" % w,
             "linComp %d s000041,s000047;s00004b" % w, "reduce 5 -", "reduce 20 -",
             "cplx WF 20 - %d 1 3" % w, "cplx LC 5 - %d 1 2" % w, "cplx LZW 8 - %d 2 3" % w,
-            "getphos", "phosseq", "kappaphos", "html"]
+            "getphos", "phosseq", "kappaphos", "html",
+            # pH-dependent getters at the pH values the pI bisection itself evaluates, and the pI search
+            "pi", "phq ncpr 7/1", "phq mnc 21/2", "phq fcr 7/2", "phq fer 7/1",
+            # user alphabets (same size argument as a predefined call)
+            "reduce 20 " + UA_HP, "reduce 5 " + UA_KR, "reduce 20 " + UA_BAD]
 
 
 def hist_case(seqs, calls, kind):
@@ -46,13 +59,13 @@ def hist_case(seqs, calls, kind):
     return Case(lines, {"kind": kind, "nobj": len(seqs)}, nontrivial=True)
 
 
-FIXED = ["EEEEEKKKKKGGGG", "KEGSTYPKRDDEAG", "EEEEDDEEDD", "KEKEK", "GGGGGGG", "MKKKKKKKKKKSTY", "AGSTVKEAGSTVDR"]
+FIXED = ["EEEEEKKKKKGGGG", "KEGSTYPKRDDEAG", "EEEEDDEEDD", "KEKEK", "KGGEEEGGK", "KEEEGGK", "GGGGGGG", "MKKKKKKKKKKSTY", "AGSTVKEAGSTVDR"]
 
 
 def cases(rng, tier):
-    nfix = 4 if tier == "quick" else 7
+    nfix = 6 if tier == "quick" else 9
     for s in FIXED[:nfix]:
-        sh = [q for q in shapes(rng, len(s)) if not q.startswith(("linComp", "cplx", "reduce", "ppii", "ww", "mw", "aafrac", "disorder", "countN", "fminus", "sty", "len"))][:32]
+        sh = [q for q in shapes(rng, len(s)) if not q.startswith(("linComp", "cplx", "reduce", "ppii", "ww", "mw", "aafrac", "disorder", "countN", "fminus", "sty", "len"))][:37]
         for q1 in sh:
             for q2 in sh:
                 yield hist_case([s], [(0, q1), (0, q2)], "pair")
@@ -69,6 +82,26 @@ def cases(rng, tier):
             oi = rng.randrange(k)
             calls.append((oi, rng.choice(shapes(rng, len(seqs[oi])))))
         yield hist_case(seqs, calls, "history")
+    for _ in range(60 if tier == "quick" else 600):
+        yield phos_history(rng)
+
+
+def phos_history(rng):
+    """an object with phosphosites registered in arbitrary (not ascending) order, then read-only calls; every call is issued at
+    least twice at different points of the history"""
+    while True:
+        s = gen.rand_seq(rng, rng.choice(gen.KINDS), rng.randint(8, 30))
+        sty = [i + 1 for i, c in enumerate(s) if c in "STY"]
+        if len(sty) >= 2:
+            break
+    sites = rng.sample(sty, min(len(sty), rng.randint(2, 4)))
+    if sites == sorted(sites):
+        sites.reverse()
+    qs = ["getphos", "phosdist", "phosseq", "kappaphos", "kappa", "dmax", "html", "seq", "fcr"]
+    calls = [rng.choice(qs) for _ in range(rng.randint(4, 10))]
+    calls = ["phosdist"] + calls + ["getphos", "phosdist", "phosseq", "kappaphos"]
+    lines = ["new 1 " + s, "setphos 1 " + " ".join(map(str, sites))] + ["o 1 " + q for q in calls]
+    return Case(lines, {"kind": "history-with-phosphosites"}, nontrivial=True)
 
 
 def same(a, b):
@@ -111,6 +144,14 @@ def judge(case, reals, gens, specs):
             if not same(live, fresh):
                 out.append(("violation", i, "HISTORY-DEPENDENT: %s -> %s but a fresh object (%s) -> %s ; history: %s" % (
                     case.block[i], str(live)[:120], case.block[i + 1], str(fresh)[:120], " | ".join(hist)[:300])))
+    if case.tags.get("kind") == "history-with-phosphosites":
+        first = {}
+        for i, l in enumerate(case.block):
+            if l.startswith("o "):
+                if l in first and reals[first[l]] != reals[i]:
+                    out.append(("violation", i, "HISTORY-DEPENDENT: %s answered %s first and %s after %s" % (
+                        l, str(reals[first[l]])[:150], str(reals[i])[:150], " | ".join(case.block[first[l] + 1:i])[:200])))
+                first.setdefault(l, i)
     if case.tags.get("nobj"):
         for k in range(nobj):
             seq = case.block[k].split(" ")[2]
